@@ -123,7 +123,7 @@ Inductive ctor_stmt : Set :=
 
 (** * MPIMaster::is_finished *)
 Inductive mf_count : Set :=
-| MfSumOfWorkersFinish          (* std::accumulate(workers_finish.begin(), workers_finish.end(), 0, std::plus<int>()) *)
+| MfSumOfWorkersFinish          (* the number of true entries of workers_finish: std::accumulate(begin, end, 0 [, std::plus<int>()]) or std::count(begin, end, true) *)
 | MfCountUnrecognised.
 
 (** * MPIWorker::receive_order *)
